@@ -108,6 +108,7 @@ class RefScript:
     def __init__(self, seed, forced=None):
         self.rng = np.random.default_rng(seed)
         self.lanes = []
+        self.sites = []  # (reference dist name, raw site record with the value) for re-alignment
         self.visits = 0
         self.forced = forced  # optional callable(site, lane_index, refname, params) -> value or None
 
@@ -133,9 +134,12 @@ class RefScript:
                 v = ref.sample(rname, self.rng, *ps)
             vals.append(np.asarray(v))
             self.lanes.append(dict(d=rname, params=ps, value=np.asarray(v), site=site["idx"]))
-        ev = np.shape(vals[0])
         arr = np.stack(vals).reshape(tuple(site["shape"])) if vals else np.zeros(site["shape"])
-        return arr.astype(np.dtype(site["dtype"]))
+        arr = arr.astype(np.dtype(site["dtype"]))
+        raw = dict(site)
+        raw["value"] = arr
+        self.sites.append((rname, raw))
+        return arr
 
 
 _KWORDER = {"normal": ("loc", "scale"), "uniform": ("low", "high"), "exponential": ("rate",),
@@ -158,10 +162,34 @@ def _order_params(rname, rc):
     return tuple(out)
 
 
-def match_sites(ref_sites, lanes, want_live_only=False):
+def _lanes_of(rname, recs):
+    return [dict(d=rname, params=_order_params(rname, rc), value=np.asarray(rc["value"]), site=rc["site"])
+            for rc in recs if not any(p is None for p in rc["params"])]
+
+
+def match_sites(ref_sites, lanes, want_live_only=False, script=None):
     """Multiset matching: every reference site record must be matched by one consulted lane with
     the same distribution, bit-equal value and (to float32 tolerance) equal parameters.
+    When the RefScript is given, each vectorised site visit is re-split under every consistent
+    alignment of parameter dims with lane dims and the best one is kept (shapes alone do not
+    always determine which enclosing vmap level a parameter was mapped at).
     Returns (unmatched_ref, unmatched_lanes)."""
+    if script is not None and getattr(script, "sites", None):
+        chosen = []
+        for rname, raw in script.sites:
+            cands = [_lanes_of(rname, recs) for recs in ref.lane_candidates(raw)]
+            cands = [c for c in cands if c] or [[]]
+            if len(cands) == 1:
+                chosen += cands[0]
+                continue
+            best = max(cands, key=lambda c: len(ref_sites) - len(_match(ref_sites, c)[0]))
+            chosen += best
+        lanes = chosen
+        script.aligned = chosen
+    return _match(ref_sites, lanes)
+
+
+def _match(ref_sites, lanes):
     used = [False] * len(lanes)
     unmatched = []
     for s in ref_sites:
